@@ -579,11 +579,16 @@ func tk(run string, deps []Call, cmds ...Cmd) Task {
 }
 
 // Directed returns one of a few program templates with randomised details.
-func Directed(r *rand.Rand) *Prog {
+func Directed(r *rand.Rand) *Prog { return DirectedTemplate(r, r.Intn(NDirected)) }
+
+// NDirected is the number of templates DirectedTemplate knows.
+const NDirected = 9
+
+func DirectedTemplate(r *rand.Rand, tmpl int) *Prog {
 	code := []int{1, 2, 7, 126, 255}[r.Intn(5)]
 	dedup := []string{"once", "when_changed"}[r.Intn(2)]
 	p := &Prog{}
-	switch r.Intn(9) {
+	switch tmpl % NDirected {
 	case 8: // a called task's dep fails while a sibling dep (with deferred commands) is still busy: the
 		// caller ignores the error but must not move on before the sibling went quiet (errgroup.Wait)
 		p.Tasks = []Task{
